@@ -154,6 +154,12 @@ pub fn call_inputs(o: &CallOpts, vdir: &Path, fixroot: &Path) -> Vec<(String, St
     {
         v.push((format!("deg:{i}"), s.to_string()));
     }
+    // U-num: extreme values of the one literal whose VALUE the formatter reads (the `columns:` argument of a table / grid call)
+    for (i, n) in ["0", "1", "3", "99999999999", "9223372036854775807", "0x7fffffffffffffff", "1e3"].iter().enumerate() {
+        for (j, f) in ["table", "grid"].iter().enumerate() {
+            v.push((format!("num:{i}:{j}"), format!("#{f}(columns: {n}, [a], [b], [c])\n")));
+        }
+    }
     v.extend(nest_inputs(o.nest_max));
     v
 }
